@@ -687,8 +687,9 @@ theorem acceptDelivery_kp {s s' : BState} {c : ConnId} {x : BConn} {b : BSess} {
             some ((s.setSessOf c b').setConn c
               (retake { x with deqHand := false, deqChan := min s.cfg.window (x.deqChan + 1) })))
          else
-          (if (b'.sess.nextID).1 ≠ id then none else
-            some ((s.setSessOf c { b' with sess := (b'.sess.nextID).2.savePacket .outgoing (.publish out false id) }).setConn c
+          (if (b'.sess.freshID).1 = 0 then none else
+           if (b'.sess.freshID).1 ≠ id then none else
+            some ((s.setSessOf c { b' with sess := (b'.sess.freshID).2.savePacket .outgoing (.publish out false id) }).setConn c
               (retake { x with deqHand := false })))) = some r → Kp s r := by
       intro b' out r hr
       split at hr
@@ -700,9 +701,11 @@ theorem acceptDelivery_kp {s s' : BState} {c : ConnId} {x : BConn} {b : BSess} {
               (Keep.of_life rfl rfl (fun _ => ⟨rfl, rfl⟩)) (keep_retake _)))
       · split at hr
         · cases hr
-        · injection hr with hr; rw [← hr]
-          exact (Kp.setSessOf s c _).trans (Kp.setConn (by rw [setSessOf_conn?]; exact hx)
-            (Keep.trans (a := x) (b := { x with deqHand := false }) (Keep.of_life rfl rfl (fun _ => ⟨rfl, rfl⟩)) (keep_retake _)))
+        · split at hr
+          · cases hr
+          · injection hr with hr; rw [← hr]
+            exact (Kp.setSessOf s c _).trans (Kp.setConn (by rw [setSessOf_conn?]; exact hx)
+              (Keep.trans (a := x) (b := { x with deqHand := false }) (Keep.of_life rfl rfl (fun _ => ⟨rfl, rfl⟩)) (keep_retake _)))
     simp only at ha
     split at ha
     · rename_i s1 hfs
